@@ -26,6 +26,10 @@ def handle (ts : List String) : String :=
     let k := (n.drop 2).toString
     let m := "ids=distinct served=" ++ k
     "M " ++ m ++ " | H " ++ (if obs == ["ids=distinct", "served=" ++ k] then "1" else "0")
+  | "unix" :: "ids" :: rest =>
+    -- `C19_ids_distinct`: a counter handed out by fetch_add gives pairwise distinct identifiers
+    let (_, obs) := splitAt "=>" rest
+    "M ids=distinct | H " ++ (if obs == ["ids=distinct"] then "1" else "0")
   | "unix" :: "cancel" :: _ :: _ :: "X" :: big :: small :: "=>" :: obs =>
     -- the model (`Pipe.flushCancelled`) predicts the corruption; what the property demands:
     let sent := ["ok:" ++ big, "ok:" ++ small]
